@@ -203,6 +203,17 @@ class MemberSim(Sim):
     def current_members(self):
         return sorted(self.mm.committed_members)
 
+    def ro_join_members(self):
+        """A read-only node is started with the current member list, or - as long as one of them still is a running member -
+        with the list of the founding members (a configuration file nobody updated): it learns the rest from the log or
+        from a snapshot."""
+        cur = sorted(self.mm.committed_members)
+        if self.cfg.get('ro_stale_list') and self.rng.random() < 0.5:
+            if any(m in self.mm.committed_members and self.running(m) for m in self.members0):
+                self.mon.sit['ro_joined_with_founders_list'] += 1
+                return list(self.members0)
+        return cur
+
     def boot_members(self, p):
         if self.cfg.get('restart_with_first_list') and p.conf.journalFile and getattr(p, 'first_list', None) is not None \
                 and self.rng.random() < 0.7:
